@@ -3,6 +3,7 @@ package bt
 import (
 	"encoding/hex"
 	"encoding/json"
+	"math"
 
 	"github.com/libsv/go-bt/v2/bscript"
 )
@@ -88,7 +89,7 @@ func (n *nodeUTXOWrapper) UnmarshalJSON(b []byte) error {
 		return err
 	}
 
-	n.UTXO.Satoshis = uint64(uj.Amount * 100000000)
+	n.UTXO.Satoshis = uint64(math.Round(uj.Amount * 100000000))
 	n.UTXO.Vout = uj.Vout
 	n.UTXO.LockingScript = lscript
 	n.UTXO.TxID = txID
